@@ -403,7 +403,15 @@ def enum(ctx):
             val = strip(pe[1][1])
             if val[0] == 'var':
                 vdefs = f.init_of(val[1])
-                lit = [d for d in vdefs if any(isinstance(x, tuple) and x[0] == 'payload' and x[2] == 'IntLiteral' for x in walk(d))]
+                def pure_lit(d):
+                    # the literal itself: the IntLiteral payload (or the verified projection onto it), nothing computed on top
+                    x = unwrap_all(d)
+                    while is_call(x, 'Context::with_context') or is_call(x, 'Context::context') or is_call(x, 'ok_or'):
+                        x = unwrap_all(x[2][0])
+                    if x[0] == 'payload' and x[2] == 'IntLiteral':
+                        return True
+                    return x[0] == 'call' and variant_projection(P, x[1]) == ('IntLiteral', 0)
+                lit = [d for d in vdefs if pure_lit(d)]
                 ctr = [d for d in vdefs if strip(d)[0] == 'var' and strip(d) != val]
                 if len(vdefs) == 2 and len(lit) == 1 and len(ctr) == 1:
                     cv = strip(ctr[0])
